@@ -384,7 +384,7 @@ func (in *Interp) strEq(a, b Str) Bool {
 	// strip common prefix
 	for len(sa) > 0 && len(sb) > 0 {
 		x, y := sa[0], sb[0]
-		if x.T == nil && x.Itoa == nil && y.T == nil && y.Itoa == nil {
+		if x.isLit() && y.isLit() {
 			n := 0
 			for n < len(x.Lit) && n < len(y.Lit) && x.Lit[n] == y.Lit[n] {
 				n++
@@ -403,7 +403,7 @@ func (in *Interp) strEq(a, b Str) Bool {
 			}
 			continue
 		}
-		if x.T != nil && x.T == y.T || x.Itoa != nil && x.Itoa == y.Itoa {
+		if x.T != nil && x.T == y.T || x.Itoa != nil && x.Itoa == y.Itoa || sameB64(x, y) {
 			sa, sb = sa[1:], sb[1:]
 			continue
 		}
@@ -412,7 +412,7 @@ func (in *Interp) strEq(a, b Str) Bool {
 	// strip common suffix
 	for len(sa) > 0 && len(sb) > 0 {
 		x, y := sa[len(sa)-1], sb[len(sb)-1]
-		if x.T == nil && x.Itoa == nil && y.T == nil && y.Itoa == nil {
+		if x.isLit() && y.isLit() {
 			n := 0
 			for n < len(x.Lit) && n < len(y.Lit) && x.Lit[len(x.Lit)-1-n] == y.Lit[len(y.Lit)-1-n] {
 				n++
@@ -431,7 +431,7 @@ func (in *Interp) strEq(a, b Str) Bool {
 			}
 			continue
 		}
-		if x.T != nil && x.T == y.T || x.Itoa != nil && x.Itoa == y.Itoa {
+		if x.T != nil && x.T == y.T || x.Itoa != nil && x.Itoa == y.Itoa || sameB64(x, y) {
 			sa, sb = sa[:len(sa)-1], sb[:len(sb)-1]
 			continue
 		}
@@ -442,7 +442,7 @@ func (in *Interp) strEq(a, b Str) Bool {
 	}
 	// character-class mismatch at either end: itoa renders as -?[0-9]+
 	if len(sa) > 0 && len(sb) > 0 {
-		isLit := func(g Seg) bool { return g.T == nil && g.Itoa == nil }
+		isLit := func(g Seg) bool { return g.isLit() }
 		headClash := func(x, y Seg) bool {
 			return x.Itoa != nil && isLit(y) && len(y.Lit) > 0 && !(y.Lit[0] == '-' || (y.Lit[0] >= '0' && y.Lit[0] <= '9'))
 		}
@@ -451,6 +451,29 @@ func (in *Interp) strEq(a, b Str) Bool {
 		}
 		if headClash(sa[0], sb[0]) || headClash(sb[0], sa[0]) || tailClash(sa[len(sa)-1], sb[len(sb)-1]) || tailClash(sb[len(sb)-1], sa[len(sa)-1]) {
 			return Bool{C: false}
+		}
+	}
+	// base64(x) == base64(y): same encoding <=> same bytes; padded vs unpadded differ unless no padding is needed
+	if len(sa) == 1 && len(sb) == 1 && sa[0].B64 != nil && sb[0].B64 != nil {
+		x, y := sa[0], sb[0]
+		if len(x.B64) != len(y.B64) {
+			return Bool{C: false}
+		}
+		if x.Enc != y.Enc {
+			samePad := (x.Enc == "std" || x.Enc == "url") == (y.Enc == "std" || y.Enc == "url")
+			sameAlpha := (x.Enc == "std" || x.Enc == "raw") == (y.Enc == "std" || y.Enc == "raw")
+			if !sameAlpha {
+				panic(inconclusive{"comparison of base64 texts in different alphabets"})
+			}
+			if !samePad && len(x.B64)%3 != 0 {
+				return Bool{C: false}
+			}
+		}
+		return in.mkBoolT(in.eqBytes(x.B64, y.B64))
+	}
+	for _, g := range append(append([]Seg{}, sa...), sb...) {
+		if g.B64 != nil && len(sa) > 0 && len(sb) > 0 {
+			panic(inconclusive{"comparison of a base64 text of symbolic bytes with other text"})
 		}
 	}
 	// itoa(x) == itoa(y)  <=>  x == y
@@ -478,7 +501,7 @@ func (in *Interp) strEq(a, b Str) Bool {
 		if lit.Itoa != nil {
 			lit, it = it, lit
 		}
-		if it.Itoa != nil && lit.T == nil && lit.Itoa == nil {
+		if it.Itoa != nil && lit.isLit() {
 			n, err := strconv.ParseInt(lit.Lit, 10, 64)
 			if err != nil || strconv.FormatInt(n, 10) != lit.Lit {
 				return Bool{C: false}
@@ -488,6 +511,18 @@ func (in *Interp) strEq(a, b Str) Bool {
 	}
 	// general case: string theory
 	return in.mkBoolT(in.tb.Eq(in.strTerm(Str{Segs: sa}), in.strTerm(Str{Segs: sb})))
+}
+
+func sameB64(x, y Seg) bool {
+	if x.B64 == nil || y.B64 == nil || x.Enc != y.Enc || len(x.B64) != len(y.B64) {
+		return false
+	}
+	for i := range x.B64 {
+		if x.B64[i].T != y.B64[i].T || x.B64[i].T == nil && x.B64[i].C != y.B64[i].C {
+			return false
+		}
+	}
+	return true
 }
 
 // strTerm renders a string as an SMT String term.
@@ -500,6 +535,8 @@ func (in *Interp) strTerm(s Str) *smt.Term {
 		switch {
 		case g.T != nil:
 			parts = append(parts, g.T)
+		case g.B64 != nil:
+			panic(inconclusive{"base64 text of symbolic bytes in a string-theory term"})
 		case g.Itoa != nil:
 			// signed decimal: ite(x<0, "-"+from_int(-x), from_int(x)) via bv2nat
 			neg := in.tb.BVCmp("bvslt", g.Itoa, in.tb.BV(64, 0))
@@ -668,9 +705,15 @@ func (in *Interp) conv(tDst, tSrc types.Type, x Value) Value {
 		if b, ok := utDst.(*types.Basic); ok && b.Kind() == types.String {
 			s := x.(Slice)
 			if eb, ok := utSrc.Elem().Underlying().(*types.Basic); ok && eb.Kind() == types.Byte {
+				if str, ok := in.strOfByteToken(s.A); ok {
+					return str
+				}
 				buf := make([]byte, len(s.A))
 				for i, e := range s.A {
-					b := e.(BV)
+					b, isBV := e.(BV)
+					if !isBV {
+						panic(inconclusive{"string(bytes) over part of a symbolic-string token"})
+					}
 					if b.T != nil {
 						panic(inconclusive{"string(bytes) with symbolic bytes"})
 					}
@@ -696,7 +739,10 @@ func (in *Interp) conv(tDst, tSrc types.Type, x Value) Value {
 			switch d := utDst.(type) {
 			case *types.Slice:
 				if !s.IsConc() {
-					panic(inconclusive{"[]byte(symbolic string)"})
+					if d.Elem().Underlying().(*types.Basic).Kind() != types.Byte {
+						panic(inconclusive{"[]rune(symbolic string)"})
+					}
+					return Slice{A: in.byteTokenOfStr(s)}
 				}
 				if d.Elem().Underlying().(*types.Basic).Kind() == types.Byte {
 					out := make([]Value, len(s.S))
